@@ -14,7 +14,7 @@ EXPLANATION = (
     "channel whose only sender is the guard's Drop; every stream returned was inserted first.")
 # every anchor of these rules lives in the h3 crate: thorough tier repeats them on the feature-less build
 EXTRA_CONFIGS = ["h3-plain"]
-RULES = "C09-a guard tied to every handle (A12/A10/A4); C09-b shared by both halves (A4/A12); C09-c completion gating and draining (A2/A3/A7/A10); shared through a proxy: C04-b (poll_accept_recv) under C09-c"
+RULES = "C09-a guard tied to every handle (A12/A10/A4); C09-b shared by both halves (A4/A12); C09-c completion gating and draining (A2/A3/A7/A10), recv_closing read only after this poll's control-stream processing (A2); shared through a proxy: C04-b (poll_accept_recv) under C09-c"
 
 SV = "h3::server::connection::Connection::"
 SEND = "tokio::sync::mpsc::unbounded::UnboundedSender::send"
@@ -148,10 +148,10 @@ def run(ctx):
             if st.s != "assign":
                 continue
             pls = ([st.rv.place] if st.rv.place is not None else []) + [o.place for o in st.rv.ops if o.place is not None]
-            if any(pl.local == 1 and "recv_closing" in pl.fields() for pl in pls):
+            if any("recv_closing" in pl.fields() for pl in pls):       # (through `self` or a reborrow of it in an expanded helper)
                 rblocks.add(bb_)
         for bb_, t in ac.all_terms():
-            if t.t == "call" and any(a.place is not None and a.place.local == 1 and "recv_closing" in a.place.fields() for a in t.args):
+            if t.t == "call" and any(a.place is not None and "recv_closing" in a.place.fields() for a in t.args):
                 rblocks.add(bb_)
         cblocks = {bb_ for bb_, t in ac.calls(SV + "poll_control")}
         ctx.floor("C09-c", "reads of recv_closing in the accept poll", len(rblocks), 1)
